@@ -162,6 +162,23 @@ func TestC11FreeRunning(t *testing.T) {
 				}
 				name, admin, cur := users[i].Name, users[i].Admin, users[i].PW
 				for r := 1; r <= rounds; r++ {
+					if r%7 == 1 {
+						// a wrong-password login of the same user in flight together with the correct one (e.g. a coalescing
+						// or caching layer keyed by user name would hand the wrong one the right one's answer)
+						wrongDone := make(chan bool, 2)
+						for k := 0; k < 2; k++ {
+							go func(k int) {
+								okw, _, _, _ := st.Authenticate(name, fmt.Sprintf("wrong-%d-%s", k, cur))
+								wrongDone <- okw
+							}(k)
+						}
+						okr, _, _, _ := st.Authenticate(name, cur)
+						w1, w2 := <-wrongDone, <-wrongDone
+						if !okr || w1 || w2 {
+							errs <- fmt.Sprintf("client %d: logins of %s in flight together: right password ok=%v, wrong passwords ok=%v/%v (round %d, mode %q)", i, name, okr, w1, w2, r, mode)
+							return
+						}
+					}
 					ok, adm, _, _ := st.Authenticate(name, cur)
 					if !ok || adm != admin {
 						errs <- fmt.Sprintf("client %d: Authenticate(%s, current password) answered ok=%v admin=%v, expected ok=true admin=%v (round %d, mode %q)", i, name, ok, adm, admin, r, mode)
